@@ -3,7 +3,9 @@
 package eng
 
 import (
+	"bytes"
 	"fmt"
+	"sync/atomic"
 
 	"github.com/couchbase/moss"
 )
@@ -85,10 +87,26 @@ type OrderedMerge struct{}
 // Name implements moss.MergeOperator.
 func (OrderedMerge) Name() string { return "verif-ordered" }
 
+// MergePoison is an operand that makes FullMerge fail (return false) while
+// MergeFailArmed is non-zero: the application's operator refusing to merge
+// is a failure moss has to survive (the merger reports it through OnError
+// and retries on its next cycle).
+var MergePoison = []byte("\x00POISON\x00")
+
+// MergeFailArmed switches the failing behaviour on (1) and off (0).
+var MergeFailArmed int32
+
+// MergeFailures counts the refused FullMerge calls.
+var MergeFailures int64
+
 // FullMerge implements moss.MergeOperator.
 func (OrderedMerge) FullMerge(key, existing []byte, operands [][]byte) ([]byte, bool) {
 	cur := existing
 	for _, o := range operands {
+		if bytes.Equal(o, MergePoison) && atomic.LoadInt32(&MergeFailArmed) != 0 {
+			atomic.AddInt64(&MergeFailures, 1)
+			return nil, false
+		}
 		cur = MergeFold(key, cur, o)
 	}
 	return cur, true
